@@ -134,16 +134,14 @@ def real_load(Bucket, env, blob, want, via, tmpdir, bccache):
     return ("M", None, None) if b.code is None else ("H9", None, b.code)
 
 
-def run_load(ctx, jinja2, table):
+def load_entries(jinja2):
+    """the three real cache entries: (env, source, wanted checksum, entry bytes, marshalled code, pickled checksum)"""
     from jinja2 import bccache
     from jinja2.bccache import Bucket, bc_magic
     from jinja2.sandbox import SandboxedEnvironment
-    tmpdir = os.path.join(ctx.bdir, "loadfiles")
-    shutil.rmtree(tmpdir, ignore_errors=True)
-    os.makedirs(tmpdir)
     envs = [jinja2.Environment(), jinja2.Environment(autoescape=True, trim_blocks=True), SandboxedEnvironment()]
     srcs = ["{{ x }} hello", "{% for i in range(3) %}{{ i }}{% endfor %}{{ x|upper }}", "{% macro m(a) %}[{{ a }}]{% endmacro %}{{ m(x) }}"]
-    cases = []     # (label, blob, want, is_complete_current, env, code_bytes, via)
+    out = []
     for env, s in zip(envs, srcs):
         want = bccache.BytecodeCache().get_source_checksum(s)
         code = env.compile(s, "t", "t.html")
@@ -153,33 +151,121 @@ def run_load(ctx, jinja2, table):
         cb = marshal.dumps(code)
         pk = pickle.dumps(want, 2)
         assert data == bc_magic + pk + cb
+        out.append((env, s, want, data, cb, pk))
+    return out
+
+
+def flip_positions(rng, entry_len, start, n):
+    return sorted({(rng.randrange(start, entry_len), rng.randrange(8)) for _ in range(n)})
+
+
+def flip_child():
+    """child process: load bit-flipped entries (marshal is not hardened against corrupt data; a crash of the
+    interpreter must not take the check down).  argv: entry index, then pos.bit ...; one JSON line per blob."""
+    jinja2 = lib.use_repo_jinja()
+    from jinja2 import bccache
+    from jinja2.bccache import Bucket, bc_magic
+    i = int(sys.argv[1])
+    env, s, want, data, cb, pk = load_entries(jinja2)[i]
+    for tok in sys.argv[2:]:
+        pos, bit = (int(x) for x in tok.split("."))
+        blob = bytearray(data)
+        blob[pos] ^= 1 << bit
+        blob = bytes(blob)
+        toy, m = toy_case(bc_magic, blob, want)
+        impl, exname, code = real_load(Bucket, env, blob, want, "string", None, bccache)
+        print(json.dumps({"pos": pos, "bit": bit, "toy": toy, "m": None if m is None else [m[0], m[-1] if m[0] != "ok" else "", m[2] if m[0] == "mexn" else (m[1] if m[0] == "pexn" else 0)],
+                          "impl": impl, "exname": exname}), flush=True)
+
+
+def run_flips(ctx, jinja2, table, only=None):
+    """bit flips (not only truncations) in the pickled checksum and the marshalled code: exercises the ValueError /
+    TypeError arms of the marshal handler and the non-EOF arms of the pickle handler"""
+    from jinja2.bccache import bc_magic
+    entries = load_entries(jinja2)
+    for i, (env, s, want, data, cb, pk) in enumerate(entries):
+        if only is not None:
+            if only.get("entry") != i:
+                continue
+            toks = [f"{only['pos']}.{only['bit']}"]
+        else:
+            toks = [f"{p}.{b}" for p, b in flip_positions(ctx.rng, len(data), len(bc_magic), ctx.size(60, 600))]
+        p = subprocess.run([lib.PY, "-c", "from harness import c27; c27.flip_child()", str(i)] + toks, capture_output=True, text=True,
+                           env=dict(lib.IMPL_ENV, PYTHONPATH=lib.SRC + ":" + lib.ROOT), timeout=600, cwd=lib.ROOT)
+        rows = [json.loads(l) for l in p.stdout.splitlines() if l.startswith("{")]
+        if p.returncode != 0:
+            ctx.notes.append(f"bit-flip child for entry {i} ended with rc={p.returncode} after {len(rows)} of {len(toks)} blobs "
+                             f"(marshal is not hardened against corrupt data): {p.stderr[-200:]}")
+        model = ctx.driver("bc", [f"L {table[0]} {table[1]} 5 {ints(bc_magic)} {ints(r['toy'])}" for r in rows]) if table and rows else [None] * len(rows)
+        for r, mo in zip(rows, model):
+            case = {"kind": "flip", "entry": i, "pos": r["pos"], "bit": r["bit"]}
+            seg = "pickle" if r["pos"] < len(bc_magic) + len(pk) else "marshal"
+            arm = (r["m"][1] if r["m"] and r["m"][0] != "ok" else "ok")
+            ctx.case(sample=dict(case, outcome=arm, result=r["impl"]) if arm in ("ValueError", "TypeError") and len(ctx.samples) < 6 else None,
+                     key=("flip", i, r["pos"], r["bit"]))
+            ctx.count(f"flip_{seg}_{arm}")
+            if only is not None:
+                print("codec outcome:", r["m"], "\nmodel:", mo, "\nimpl :", r["impl"], r["exname"])
+            if r["m"] and r["m"][0] == "mexn" and r["m"][2] not in (0, 1, 2):
+                # arbitrary corruption is outside the property's quantifier (truncated / foreign / stale entries) and
+                # outside the law marshal_raises: CPython's marshal answers some corrupt inputs with SystemError or a
+                # crash of the interpreter.  Counted, named in the evidence, not judged.
+                ctx.count("flip_outside_marshal_law")
+                ctx.extra.setdefault("marshal_law_exceptions_on_bit_flips", {}).setdefault(r["m"][1], 0)
+                ctx.extra["marshal_law_exceptions_on_bit_flips"][r["m"][1]] += 1
+                continue
+            if r["impl"].startswith("R"):
+                ctx.reject(case, f"load_bytecode raised {r['exname']} on an entry with bit {r['bit']} of byte {r['pos']} flipped ({seg} segment)",
+                           f"C27:load-raises:{seg}-segment")
+            elif mo is not None and r["impl"] != mo:
+                ctx.model_mismatch("K-rt Bucket.load_bytecode (bit flips)", case, mo, r["impl"], None)
+            else:
+                ctx.validated()
+
+
+def run_load(ctx, jinja2, table, only=None):
+    from jinja2 import bccache
+    from jinja2.bccache import Bucket, bc_magic
+    from jinja2.sandbox import SandboxedEnvironment
+    tmpdir = os.path.join(ctx.bdir, "loadfiles")
+    shutil.rmtree(tmpdir, ignore_errors=True)
+    os.makedirs(tmpdir)
+    cases = []     # (label, blob, want, is_complete_current, env, code_bytes, via, entry index)
+    for ei, (env, src_text, want, data, cb, pk) in enumerate(load_entries(jinja2)):
         for k in range(len(data) + 1):
             vias = ["string"] + (["file", "memcached"] if k % 7 == 0 or k == len(data) or abs(k - len(bc_magic) - len(pk)) <= 1 else [])
             for via in vias:
-                cases.append((f"trunc@{k}/{len(data)}", data[:k], want, k == len(data), env, cb, via))
-        cases.append(("stale-checksum", data, "0" * 40, False, env, cb, "string"))
-        cases.append(("stale-checksum", data, "0" * 40, False, env, cb, "file"))
+                cases.append((f"trunc@{k}/{len(data)}", data[:k], want, k == len(data), env, cb, via, ei))
+        cases.append(("stale-checksum", data, "0" * 40, False, env, cb, "string", ei))
+        cases.append(("stale-checksum", data, "0" * 40, False, env, cb, "file", ei))
         foreign = [b"j2" + pickle.dumps(5, 2) + pickle.dumps((3 << 24) | 11, 2), b"j2" + pickle.dumps(4, 2) + bc_magic[6:],
                    b"x" * len(bc_magic), bc_magic[:-1] + b"\x00", b"J2" + bc_magic[2:]]
         for fm in foreign:
-            cases.append(("foreign-magic", fm + pk + cb, want, False, env, cb, "string"))
+            cases.append(("foreign-magic", fm + pk + cb, want, False, env, cb, "string", ei))
         corrupt = [b"garbage", b"\x80\x02X\xff\xff\xff\x7f", b"\x80\x02.", b"cnonexistent_mod_xyz\nx\n.", b"I1x\n.", b"\x80\x02}q\x00.",
                    b"\x80\x02X\x02\x00\x00\x00\xff\xfeq\x00.", b"0.", b"\x80\x02(.", b"h\x05.", b"\x80\x02K\x01.", b"\x80\x05\x95\xff"]
         for c in corrupt:
-            cases.append(("corrupt-pickle", bc_magic + c + cb, want, False, env, cb, "string"))
-            cases.append(("corrupt-pickle", bc_magic + c + cb, want, False, env, cb, "memcached"))
-        cases.append(("empty", b"", want, False, env, cb, "string"))
+            cases.append(("corrupt-pickle", bc_magic + c + cb, want, False, env, cb, "string", ei))
+            cases.append(("corrupt-pickle", bc_magic + c + cb, want, False, env, cb, "memcached", ei))
+        for cm in (b"<\x01\x00\x00\x00[\x00\x00\x00\x00", b"?", b"\xff\xff", b"(\x02\x00\x00\x00N", b"s\xff\xff\xff\x7fab"):
+            cases.append(("corrupt-marshal", bc_magic + pk + cm, want, False, env, cb, "string", ei))
+            cases.append(("corrupt-marshal", bc_magic + pk + cm, want, False, env, cb, "file", ei))
+        cases.append(("empty", b"", want, False, env, cb, "string", ei))
+    if only is not None:
+        cases = [c for c in cases if (c[7], c[0], c[6]) == (only.get("entry"), only.get("label"), only.get("via"))]
     lines, metas = [], []
-    for label, blob, want, complete, env, cb, via in cases:
+    for label, blob, want, complete, env, cb, via, ei in cases:
         toy, m = toy_case(bc_magic, blob, want)
         metas.append(m)
         lines.append(f"L {table[0]} {table[1]} 5 {ints(bc_magic)} {ints(toy)}" if table else "")
     model = ctx.driver("bc", lines) if table else [None] * len(cases)
-    for (label, blob, want, complete, env, cb, via), m, mo in zip(cases, metas, model):
+    for (label, blob, want, complete, env, cb, via, ei), m, mo in zip(cases, metas, model):
         impl, exname, code = real_load(Bucket, env, blob, want, via, tmpdir, bccache)
         n = len(bc_magic)
         inside = label.startswith("trunc") and n <= len(blob) < n + 50 + len(cb)
-        case = {"kind": "load", "label": label, "via": via, "len": len(blob), "blob_hex": blob[:120].hex()}
+        case = {"kind": "load", "entry": ei, "label": label, "via": via, "len": len(blob), "blob_hex": blob[:120].hex()}
+        if only is not None:
+            print("codec outcome:", None if m is None else (m[0], m[-1] if m[0] != "ok" else ""), "\nmodel:", mo, "\nimpl :", impl, exname)
         ctx.case(sample=dict(case, result=impl) if label == "trunc@40/" + label.split("/")[-1] else None,
                  key=("load", label, via, env.autoescape) if (inside or not label.startswith("trunc")) else None)
         ctx.count("load_" + label.split("@")[0])
@@ -275,7 +361,7 @@ def dir_state(cachedir):
     return real, tmps
 
 
-def run_crash(ctx, jinja2):
+def run_crash(ctx, jinja2, only=None):
     from jinja2.bccache import FileSystemBytecodeCache
     base = os.path.join(ctx.bdir, "crash")
     shutil.rmtree(base, ignore_errors=True)
@@ -301,6 +387,8 @@ def run_crash(ctx, jinja2):
         for mode in ("crash", "fault"):
             for point, label in enumerate(labels):
                 if mode == "fault" and label in ("after-create", "after-replace"):
+                    continue
+                if only is not None and (only.get("mode"), only.get("point"), bool(only.get("old_entry"))) != (mode, point, with_old):
                     continue
                 d = os.path.join(base, f"{mode}_{int(with_old)}_{point}")
                 os.makedirs(d)
@@ -355,6 +443,8 @@ def run_crash(ctx, jinja2):
                         of = of or f"after the interrupted write a fresh environment rendered {out!r}"
                 except Exception as e:  # noqa
                     of = of or f"after the interrupted write get_template raised {type(e).__name__}: {e}"
+                if only is not None:
+                    print("model (real name, temp file):", ml, "\nimpl :", r_real, r_tmp, "\nchild:", rc, cinfo, "\noracle:", of)
                 if of:
                     ctx.reject(case, of, f"C27:crash:{mode}:{label}")
                 elif protocol_ok and (r_real, r_tmp) != (m_real, m_tmp):
@@ -396,7 +486,7 @@ def render(t):
         return "X:" + type(e).__name__
 
 
-def run_shared(ctx, jinja2):
+def run_shared(ctx, jinja2, only=None):
     from jinja2.bccache import FileSystemBytecodeCache
     d = os.path.join(ctx.bdir, "shared")
     L = ctx.size(3, 4)
@@ -406,6 +496,8 @@ def run_shared(ctx, jinja2):
     extra = [list(h) for h in itertools.product(ops_alpha, repeat=L + 1)] if ctx.tier == "thorough" else \
         [[ctx.rng.choice(ops_alpha) for _ in range(ctx.rng.randint(4, 7))] for _ in range(150)]
     cases = [(p, h) for p in pairs for h in hist] + [(p, h) for p in ((0, 1), (0, 0), (3, 0)) for h in extra]
+    if only is not None:
+        cases = [(tuple(only["options"]), list(only["ops"]))]
     model = ctx.driver("bc", [f"S {p[0]} {p[1]} 7 " + " ".join(h) for p, h in cases])
     refcache = {}
 
@@ -457,6 +549,8 @@ def run_shared(ctx, jinja2):
         ctx.case(sample=dict(case, rendered=got) if second and p == (0, 1) and len(ctx.samples) < 6 else None,
                  key=("shared", p, tuple(h)) if second else None)
         ctx.count(f"shared_{'same' if p[0] == p[1] else 'different'}_options")
+        if only is not None:
+            print("model (as text):", expect_model, "\nimpl :", got, "\noracle:", fail)
         if fail:
             ctx.reject(dict(case, rendered=got), fail, SHARED_SIG if p[0] != p[1] else None)
             if got != expect_model:
@@ -469,7 +563,7 @@ def run_shared(ctx, jinja2):
 
 
 # ------------------------------------------------------------------------------------------- memcached
-def run_memcached(ctx, jinja2):
+def run_memcached(ctx, jinja2, only=None):
     from jinja2.bccache import MemcachedBytecodeCache
 
     class Boom(Exception):
@@ -499,6 +593,8 @@ def run_memcached(ctx, jinja2):
            [("get-fails", {"fail_get": True}, True), ("set-fails", {"fail_set": True}, True),
             ("get-fails-strict", {"fail_get": True}, False), ("set-fails-strict", {"fail_set": True}, False)]
     for label, kw, ignore in scen:
+        if only is not None and only.get("scenario") != label:
+            continue
         c = Client(**kw)
         c.d = {} if kw.get("fail_set") else dict(good.d)     # a failing set is only reached on a miss
         env = jinja2.Environment(loader=jinja2.DictLoader({"t": src}), bytecode_cache=MemcachedBytecodeCache(c, ignore_memcache_errors=ignore), cache_size=0)
@@ -518,6 +614,59 @@ def run_memcached(ctx, jinja2):
             ctx.validated()
 
 
+# ------------------------------------------------------------------------------------------- names / sources outside UTF-8
+UNI = [("t", "a\ud800b {{ x }}"), ("n\ud800", "plain {{ x }}"), ("t\udfff", "\udc80{{ x }}"), ("é😀", "é😀\x00{{ x }}"),
+       ("t", "{{ '\ud800' }}{{ x }}"), ("dir/\ud83d", "half a pair \ud83d {{ x }}")]
+
+
+def run_unicode(ctx, jinja2, only=None):
+    """every template a loader can serve must load through a bytecode cache: names and sources with lone surrogates
+    (not encodable as strict UTF-8), astral characters, NUL"""
+    from jinja2.bccache import FileSystemBytecodeCache, MemcachedBytecodeCache
+
+    class Client:
+        def __init__(self):
+            self.d = {}
+
+        def get(self, key):
+            return self.d.get(key)
+
+        def set(self, key, value, timeout=None):
+            self.d[key] = value
+
+    d = os.path.join(ctx.bdir, "unicode")
+    for idx, (name, src) in enumerate(UNI):
+        for kind in ("fs", "memcached"):
+            if only is not None and (only.get("index"), only.get("cache")) != (idx, kind):
+                continue
+            shutil.rmtree(d, ignore_errors=True)
+            os.makedirs(d)
+            case = {"kind": "unicode", "index": idx, "cache": kind, "name": ascii(name), "source": ascii(src)}
+            ctx.case(sample=case if idx == 0 and kind == "fs" else None, key=("unicode", idx, kind))
+            ctx.count("unicode_" + kind)
+            try:
+                ref = jinja2.Environment(loader=jinja2.DictLoader({name: src})).get_template(name).render(x=1)
+            except Exception as e:  # noqa
+                ctx.count("unicode_not_loadable_without_cache")
+                continue
+            bcc = FileSystemBytecodeCache(d) if kind == "fs" else MemcachedBytecodeCache(Client())
+            try:
+                outs = []
+                for _ in range(2):       # second round is served from the cache
+                    env = jinja2.Environment(loader=jinja2.DictLoader({name: src}), bytecode_cache=bcc, cache_size=0)
+                    outs.append(env.get_template(name).render(x=1))
+                fail = None if outs == [ref, ref] else f"rendered {outs!r} through the cache, {ref!r} without"
+            except Exception as e:  # noqa
+                fail = f"get_template raised {type(e).__name__}: {e} with a bytecode cache; without one the template renders"
+            if only is not None:
+                print("oracle:", fail)
+            if fail:
+                ctx.reject(case, fail, "C27:bytecode-cache-rejects-non-utf8-name-or-source")
+            else:
+                ctx.validated()
+    shutil.rmtree(d, ignore_errors=True)
+
+
 def run(ctx):
     jinja2 = lib.use_repo_jinja()
     ctx.extra["rule"] = RULE
@@ -532,12 +681,46 @@ def run(ctx):
     ]
     ctx.proof("C27")
     table = regen_table(ctx)
+    # translator tie (T5): the current source of Bucket.load_bytecode and of dump_bytecode's control skeleton, as
+    # terms of Lib/PyBc, proved equal to the model for all inputs / all crash and fault points
+    sys.path.insert(0, os.path.join(lib.ROOT, "gen"))
+    import bc_translate
+    try:
+        ok, out = ctx.coq_obligation("Gen_bc", bc_translate.emit(lib.SRC), n_obligations=8)
+        if ok:
+            ctx.trusted.append("Gen_bc (load_bytecode / dump_bytecode source = model): " + " ".join(out.split()))
+    except bc_translate.Untranslatable as e:
+        ctx.obligations += 8
+        ctx.broken.append(f"translator gen/bc_translate.py: bccache source left the translatable vocabulary: {e}")
     run_load(ctx, jinja2, table)
+    run_flips(ctx, jinja2, table)
     run_crash(ctx, jinja2)
     run_shared(ctx, jinja2)
     run_memcached(ctx, jinja2)
+    run_unicode(ctx, jinja2)
 
 
 def replay(ctx, data):
-    print("replay: C27 cases are regenerated deterministically; re-running the check section that produced", (data.get("case") or {}).get("kind"))
-    return run(ctx)
+    """re-run exactly the recorded case through the model, the implementation and the oracle"""
+    jinja2 = lib.use_repo_jinja()
+    case = data.get("case")
+    if data.get("kind") != "failing-input" or case is None:
+        print("replay: this file names a broken theorem/correspondence, not an input:", data.get("broken"))
+        return run(ctx)
+    kind = case.get("kind")
+    print("replay:", {k: v for k, v in case.items() if k not in ("blob_hex", "rendered")})
+    if kind in ("load", "flip"):
+        table = regen_table(ctx)
+        (run_load if kind == "load" else run_flips)(ctx, jinja2, table, only=case)
+    elif kind == "crash":
+        run_crash(ctx, jinja2, only=case)
+    elif kind == "shared":
+        run_shared(ctx, jinja2, only=case)
+    elif kind == "memcached":
+        run_memcached(ctx, jinja2, only=case)
+    elif kind == "unicode":
+        run_unicode(ctx, jinja2, only=case)
+    else:
+        print("replay: unknown case kind", kind)
+    if ctx.evaluations == 0:
+        print("replay: the recorded case is not produced by the current generators")
